@@ -404,7 +404,7 @@ func pnftViewsAgree(p *Prog, r *Report, kp func(string, string) string) {
 	}
 	var views []view
 	for _, fn := range p.ModFuncs {
-		if !InPkgs(fn, "x/pnft/keeper") || p.IsGenerated(fn) {
+		if !(InPkgs(fn, "x/pnft/keeper") || InPkgs(fn, "x/pnft/types")) || p.IsGenerated(fn) {
 			continue
 		}
 		o := NewOrigin(p, fn)
